@@ -681,12 +681,15 @@ def value_use(name):
         """Sets the value"""
         if not isinstance(value, Value):
             raise TypeError(f"Expecting a Value instance, but got {value}")
-        # If value was already set, remove usage
-        if name in self._var_map:
-            self.del_use(self._var_map[name])
+        old = self._var_map.get(name)
 
         # Place the value in the var map:
         self._var_map[name] = value
+
+        # If value was already set, remove usage. (An instruction can refer
+        # to the same value more than once, for example 'a + a'.)
+        if old is not None and not self._is_operand(old):
+            self.del_use(old)
 
         # Add usage:
         self.add_use(value)
@@ -734,13 +737,30 @@ class Instruction:
         """replace value usage 'old' with new value, updating the def-use
         information.
         """
-        # TODO: update reference
-        # assert old in self._var_map.values()
+        # Note that an instruction can refer to the same value more than
+        # once (for example 'a + a'), while the use is registered once.
+        if self._replace_operands(old, new):
+            self.del_use(old)
+            self.add_use(new)
+
+    def _operands(self):
+        """All operand values of this instruction (with repetitions)"""
+        return list(self._var_map.values())
+
+    def _is_operand(self, value):
+        return any(v is value for v in self._operands())
+
+    def _replace_operands(self, old, new):
+        """Replace all occurences of old in the operands by new.
+
+        Returns True when at least one operand was replaced.
+        """
+        found = False
         for name in self._var_map:
             if self._var_map[name] is old:
-                self.del_use(old)
                 self._var_map[name] = new
-                self.add_use(new)
+                found = True
+        return found
 
     def remove_from_block(self):
         for use in list(self.uses):
@@ -880,13 +900,16 @@ class FunctionCall(LocalValue):
         for arg in self.arguments:
             self.add_use(arg)
 
-    def replace_use(self, old, new):
-        super().replace_use(old, new)
-        if old in self.arguments:
-            idx = self.arguments.index(old)
-            self.del_use(old)
-            self.arguments[idx] = new
-            self.add_use(new)
+    def _operands(self):
+        return super()._operands() + list(self.arguments)
+
+    def _replace_operands(self, old, new):
+        found = super()._replace_operands(old, new)
+        for idx, argument in enumerate(self.arguments):
+            if argument is old:
+                self.arguments[idx] = new
+                found = True
+        return found
 
     def __str__(self):
         args = ", ".join(arg.name for arg in self.arguments)
@@ -911,13 +934,16 @@ class ProcedureCall(Instruction):
         for arg in self.arguments:
             self.add_use(arg)
 
-    def replace_use(self, old, new):
-        super().replace_use(old, new)
-        if old in self.arguments:
-            idx = self.arguments.index(old)
-            self.del_use(old)
-            self.arguments[idx] = new
-            self.add_use(new)
+    def _operands(self):
+        return super()._operands() + list(self.arguments)
+
+    def _replace_operands(self, old, new):
+        found = super()._replace_operands(old, new)
+        for idx, argument in enumerate(self.arguments):
+            if argument is old:
+                self.arguments[idx] = new
+                found = True
+        return found
 
     def __str__(self):
         args = ", ".join(arg.name for arg in self.arguments)
@@ -1015,14 +1041,16 @@ class Phi(LocalValue):
         )
         return f"{self.ty} {self.name} = phi {inputs}"
 
-    def replace_use(self, old, new):
-        """Replace old value reference by new value reference"""
-        assert old in self.inputs.values()
+    def _operands(self):
+        return super()._operands() + list(self.inputs.values())
+
+    def _replace_operands(self, old, new):
+        found = super()._replace_operands(old, new)
         for inp in self.inputs:
-            if self.inputs[inp] == old:
-                self.del_use(old)
+            if self.inputs[inp] is old:
                 self.inputs[inp] = new
-                self.add_use(new)
+                found = True
+        return found
 
     def set_incoming(self, block, value):
         """Set the value for the phi node when entering through block"""
@@ -1030,9 +1058,10 @@ class Phi(LocalValue):
             raise ValueError(
                 f"Type mismatch {value.ty} where {self.ty} was expected"
             )
-        if block in self.inputs:
-            self.del_use(self.inputs[block])
+        old = self.inputs.get(block)
         self.inputs[block] = value
+        if old is not None and not self._is_operand(old):
+            self.del_use(old)
         self.add_use(value)
 
     def get_value(self, block):
@@ -1042,7 +1071,8 @@ class Phi(LocalValue):
     def del_incoming(self, block):
         """Remove incoming branch from this phi node and delete the usage"""
         value = self.inputs.pop(block)
-        self.del_use(value)
+        if not self._is_operand(value):
+            self.del_use(value)
 
 
 class Alloc(LocalValue):
@@ -1203,13 +1233,21 @@ class InlineAsm(Instruction):
         self.output_values.append(value)
         self.add_use(value)
 
-    def replace_use(self, old, new):
-        super().replace_use(old, new)
-        if old in self.input_values:
-            idx = self.input_values.index(old)
-            self.del_use(old)
-            self.input_values[idx] = new
-            self.add_use(new)
+    def _operands(self):
+        return (
+            super()._operands()
+            + list(self.input_values)
+            + list(self.output_values)
+        )
+
+    def _replace_operands(self, old, new):
+        found = super()._replace_operands(old, new)
+        for values in (self.input_values, self.output_values):
+            for idx, value in enumerate(values):
+                if value is old:
+                    values[idx] = new
+                    found = True
+        return found
 
     def __str__(self):
         return f"asm ({self.template})"
